@@ -27,6 +27,7 @@
 #include "detail/_containers_helpers.h"
 #include "cache_aligned_allocator.h"
 #include <vector>
+#include <exception>
 #include <iterator>
 #include <functional>
 #include <utility>
@@ -199,6 +200,10 @@ public:
     bool try_pop( value_type& value ) {
         cpq_operation op_data(value, POP_OP);
         my_aggregator.execute(&op_data);
+#if TBB_USE_EXCEPTIONS
+        if (op_data.status == FAILED_WITH_EXCEPTION)
+            std::rethrow_exception(op_data.exception);
+#endif
         return op_data.status == SUCCEEDED;
     }
 
@@ -225,7 +230,7 @@ public:
     allocator_type get_allocator() const { return data.get_allocator(); }
 private:
     enum operation_type {INVALID_OP, PUSH_OP, POP_OP, PUSH_RVALUE_OP};
-    enum operation_status {WAIT = 0, SUCCEEDED, FAILED};
+    enum operation_status {WAIT = 0, SUCCEEDED, FAILED, FAILED_WITH_EXCEPTION};
 
     class cpq_operation : public aggregated_operation<cpq_operation> {
     public:
@@ -234,6 +239,10 @@ private:
             value_type* elem;
             size_type sz;
         };
+#if TBB_USE_EXCEPTIONS
+        // Exception thrown by the element assignment of a pop operation, handed back to the popping thread
+        std::exception_ptr exception;
+#endif
         cpq_operation( const value_type& value, operation_type t )
             : type(t), elem(const_cast<value_type*>(&value)) {}
     }; // class cpq_operation
@@ -249,6 +258,25 @@ private:
             my_cpq->handle_operations(op_list);
         }
     }; // class functor
+
+    // Assigns src to the popping thread's element. If the assignment throws, the exception is stored in the
+    // operation (to be rethrown by its caller) and false is returned; the queue is left unchanged.
+    bool assign_popped( cpq_operation* op, value_type& src ) {
+#if TBB_USE_EXCEPTIONS
+        try
+#endif
+        {
+            *(op->elem) = std::move(src);
+            return true;
+        }
+#if TBB_USE_EXCEPTIONS
+        catch(...) {
+            op->exception = std::current_exception();
+            op->status.store(uintptr_t(FAILED_WITH_EXCEPTION), std::memory_order_release);
+            return false;
+        }
+#endif
+    }
 
     void handle_operations( cpq_operation* op_list ) {
         call_itt_notify(acquired, this);
@@ -275,7 +303,7 @@ private:
                     my_compare(data[0], data.back()))
                 {
                     // there are newly pushed elems and the last one is higher than top
-                    *(tmp->elem) = std::move(data.back());
+                    if (!assign_popped(tmp, data.back())) continue;
                     my_size.store(my_size.load(std::memory_order_relaxed) - 1, std::memory_order_relaxed);
                     tmp->status.store(uintptr_t(SUCCEEDED), std::memory_order_release);
 
@@ -320,12 +348,12 @@ private:
                     my_compare(data[0], data.back()))
                 {
                     // there are newly pushed elems and the last one is higher than top
-                    *(tmp->elem) = std::move(data.back());
+                    if (!assign_popped(tmp, data.back())) continue;
                     my_size.store(my_size.load(std::memory_order_relaxed) - 1, std::memory_order_relaxed);
                     tmp->status.store(uintptr_t(SUCCEEDED), std::memory_order_release);
                     data.pop_back();
                 } else { // extract top and push last element down heap
-                    *(tmp->elem) = std::move(data[0]);
+                    if (!assign_popped(tmp, data[0])) continue;
                     my_size.store(my_size.load(std::memory_order_relaxed) - 1, std::memory_order_relaxed);
                     tmp->status.store(uintptr_t(SUCCEEDED), std::memory_order_release);
                     reheap();
